@@ -179,6 +179,9 @@ func New(t *rapid.T, o Opts) *G {
 	return &G{T: t, O: o, budget: o.Budget}
 }
 
+// Forced reports whether the fragmentation target length was placed somewhere.
+func (g *G) Forced() bool { return g.forced }
+
 func (g *G) intn(lo, hi int, label string) int { return rapid.IntRange(lo, hi).Draw(g.T, label) }
 
 // size picks a size within lb..ub (has=false: unconstrained) biased to boundaries.
